@@ -111,6 +111,7 @@ type keyPlan struct {
 	instant  int      // 0: D+0.10, 1: D+0.45, 2: D+1.10, 3: D+1.45
 	control  bool     // deadline removed or never set: must survive
 	poisoned bool
+	last     []string // the command issued on this key before the current one
 }
 
 func cmdOf(a ...string) []string { return a }
@@ -517,6 +518,9 @@ func worker(o *common.Opts) {
 					return
 				}
 				seen[sig] = true
+				if strings.HasPrefix(phase, "after-probe") && p.last != nil {
+					got += "   (right after " + strings.Join(p.last, " ") + ")"
+				}
 				out.Divs = append(out.Divs, div{Kind: kind, Key: p.key, Type: p.typ, Attach: p.attach, Follow: p.follow, TTL: p.ttl, Phase: phase, Cmd: cmd, Want: want, Got: got,
 					Times: fmt.Sprintf("setup second %d, call bracket [%d.%03d, %d.%03d]", S, t0.Unix(), t0.Nanosecond()/1e6, t1.Unix(), t1.Nanosecond()/1e6), Setup: p.setup, Sig: sig})
 			}
@@ -555,6 +559,7 @@ func worker(o *common.Opts) {
 			if !res.OK {
 				report("reply", res.Want, v.String())
 			}
+			p.last = cmd
 		}
 		for _, p := range plans {
 			for _, c := range p.setup {
@@ -613,6 +618,9 @@ func worker(o *common.Opts) {
 			}
 			off := []time.Duration{100 * time.Millisecond, 450 * time.Millisecond, 1100 * time.Millisecond, 1450 * time.Millisecond}[p.instant]
 			acts = append(acts, action{at: dt.Add(off), plan: p, cmd: p.probe, kind: fmt.Sprintf("post+%.2f", off.Seconds())})
+			// what the probe left behind: a key it created from the deadline on is a new key without a deadline (TTL -1,
+			// and it stays), a key it merely found missing is missing (TTL -2)
+			acts = append(acts, action{at: dt.Add(off + 40*time.Millisecond), plan: p, cmd: []string{"TTL", p.key}, kind: fmt.Sprintf("after-probe+%.2f", off.Seconds())})
 		}
 		sort.SliceStable(acts, func(a, b int) bool { return acts[a].at.Before(acts[b].at) })
 		for _, a := range acts {
